@@ -8,7 +8,7 @@
 //! certificate was issued by which CA is known *by construction* (the harness
 //! creates every CA, leaf and self-signed certificate itself with rcgen).
 //!
-//! Five passes:
+//! Six passes:
 //!  1. `matrix`  – subject client x subject server, the full product of the dimensions;
 //!  2. `probe`   – a harness-owned rustls client (TLS 1.2 and 1.3, verification off,
 //!     recording whether the server sent a CertificateRequest) against every subject
@@ -19,7 +19,11 @@
 //!     TCP against a harness listener: the name it verifies / sends as SNI is the documented
 //!     choice `--tls-server-name` > `--hostname` > URL host;
 //!  5. `signal-reload` – the real `server::server_main` on loopback TCP; histories of rewriting its live
-//!     certificate/key files (well-formed or not) and raising SIGUSR1, watched by a harness TLS client.
+//!     certificate/key files (well-formed or not) and raising SIGUSR1, watched by a harness TLS client;
+//!  6. `returning-client` – reload histories seen by ONE client that keeps its TLS session state (one reused
+//!     `rustls::ClientConfig`), through the library calls (in memory, the server side accepting the way `server_main`
+//!     does) and through SIGUSR1 on a running `server_main`: a handshake after a reload must be shown the new
+//!     certificate and is admitted iff the client presents a certificate under the new client CA, resumable session or not.
 
 use crate::Args;
 use crate::report::Report;
@@ -1176,8 +1180,83 @@ struct SigResult {
     machinery: Option<String>,
 }
 
-async fn run_sig_case(pki: &Pki, c: &SigCase, sink: &Sink<'_>, counters: &Counters) -> Result<SigResult, String> {
+struct SigServer {
+    task: tokio::task::JoinHandle<Result<(), rusty_penguin_lib::server::Error>>,
+    lease: super::c01_env::PortLease,
+    /// end-entity certificate the first connection was shown
+    first_der: Vec<u8>,
+    /// the first TLS connection the server accepted (made with the configuration given to `start_sig_server`)
+    first: TcpTls,
+}
+
+enum SigStart {
+    Up(SigServer),
+    /// `server_main` ended or panicked while starting: a violation has been raised
+    Failed,
+    /// no server after `SIG_START_ATTEMPTS` attempts, for reasons that are not the subject's
+    Machinery(String),
+}
+
+/// Starts the real `server_main` on a leased loopback port with the live files `live_cert` / `live_key` (written here
+/// from `start`) and waits until it completes a TLS handshake with `ccfg`.
+#[allow(clippy::too_many_arguments)]
+async fn start_sig_server(start: &Ident, live_cert: &str, live_key: &str, tls_ca: Option<String>, ccfg: &Arc<ClientConfig>, ctx: &str, sink: &Sink<'_>, replay: &Value) -> SigStart {
     use rusty_penguin_lib::arg::ServerArgs;
+    use std::time::Instant;
+    let mut last_fail = String::new();
+    'attempts: for _ in 0..SIG_START_ATTEMPTS {
+        write(live_cert, &start.cert_pem);
+        write(live_key, &start.key_pem);
+        let lease = super::c01_env::lease_port(false);
+        let args: &'static ServerArgs = Box::leak(Box::new(ServerArgs {
+            host: vec!["127.0.0.1".to_string()],
+            port: vec![lease.port],
+            not_found_resp: "404".to_string(),
+            timeout: penguin_mux::timing::OptionalDuration::from_secs(60),
+            tls_cert: Some(live_cert.to_string()),
+            tls_key: Some(live_key.to_string()),
+            tls_ca: tls_ca.clone(),
+            ..Default::default()
+        }));
+        let task = tokio::spawn(rusty_penguin_lib::server::server_main(args));
+        let deadline = Instant::now() + SIG_START_DEADLINE;
+        loop {
+            if task.is_finished() {
+                match task.await {
+                    Ok(r) => {
+                        let text = match r {
+                            Ok(()) => "server_main returned Ok(())".to_string(),
+                            Err(e) => format!("server_main returned Err: {e}"),
+                        };
+                        if text.contains("os error 98") || text.contains("Address already in use") || text.contains("Address in use") {
+                            last_fail = text; // lost the race for the port: take another one
+                            continue 'attempts;
+                        }
+                        sink.viol("sigreload.server-did-not-start".into(), format!("server_main with a well-formed certificate/key{} ended at once: {text}; {ctx}", if tls_ca.is_some() { " and client CA" } else { "" }), replay.clone());
+                        return SigStart::Failed;
+                    }
+                    Err(je) => {
+                        let text = if je.is_panic() { panic_text(&*je.into_panic()) } else { je.to_string() };
+                        sink.viol("sigreload.panic".into(), format!("server_main panicked while starting: {text}; {ctx}"), replay.clone());
+                        return SigStart::Failed;
+                    }
+                }
+            }
+            match tcp_observe(lease.port, ccfg).await {
+                Ok((first_der, first)) => return SigStart::Up(SigServer { task, lease, first_der, first }),
+                Err(e) => last_fail = format!("no TLS connection to the server within {SIG_START_DEADLINE:?} (last: {e})"),
+            }
+            if Instant::now() >= deadline {
+                task.abort();
+                continue 'attempts;
+            }
+            tokio::time::sleep(Duration::from_millis(25)).await;
+        }
+    }
+    SigStart::Machinery(format!("signal-reload: the server could not be started in {SIG_START_ATTEMPTS} attempts: {last_fail}"))
+}
+
+async fn run_sig_case(pki: &Pki, c: &SigCase, sink: &Sink<'_>, counters: &Counters) -> Result<SigResult, String> {
     use std::time::Instant;
     catch(async {
         let mut facts: Facts = Vec::new();
@@ -1192,64 +1271,13 @@ async fn run_sig_case(pki: &Pki, c: &SigCase, sink: &Sink<'_>, counters: &Counte
         let ccfg = sig_client_config(pki, c.client_ca);
 
         // ---- start the real server; the first successful TLS connection is kept for the whole history
-        let mut started = None;
-        let mut last_fail = String::new();
-        'attempts: for _ in 0..SIG_START_ATTEMPTS {
-            write(&live_cert, &ida.cert_pem);
-            write(&live_key, &ida.key_pem);
-            let lease = super::c01_env::lease_port(false);
-            let args: &'static ServerArgs = Box::leak(Box::new(ServerArgs {
-                host: vec!["127.0.0.1".to_string()],
-                port: vec![lease.port],
-                not_found_resp: "404".to_string(),
-                timeout: penguin_mux::timing::OptionalDuration::from_secs(60),
-                tls_cert: Some(live_cert.clone()),
-                tls_key: Some(live_key.clone()),
-                tls_ca: c.client_ca.then(|| pki.ca_client.path.clone()),
-                ..Default::default()
-            }));
-            let task = tokio::spawn(rusty_penguin_lib::server::server_main(args));
-            let deadline = Instant::now() + SIG_START_DEADLINE;
-            loop {
-                if task.is_finished() {
-                    match task.await {
-                        Ok(r) => {
-                            let text = match r {
-                                Ok(()) => "server_main returned Ok(())".to_string(),
-                                Err(e) => format!("server_main returned Err: {e}"),
-                            };
-                            if text.contains("os error 98") || text.contains("Address already in use") || text.contains("Address in use") {
-                                last_fail = text; // lost the race for the port: take another one
-                                continue 'attempts;
-                            }
-                            sink.viol("sigreload.server-did-not-start".into(), format!("server_main with a well-formed certificate/key{} ended at once: {text}; {c:?}", if c.client_ca { " and client CA" } else { "" }), replay.clone());
-                            facts.push(("server.started".into(), json!(false)));
-                            return SigResult { facts, machinery: None };
-                        }
-                        Err(je) => {
-                            let text = if je.is_panic() { panic_text(&*je.into_panic()) } else { je.to_string() };
-                            sink.viol("sigreload.panic".into(), format!("server_main panicked while starting: {text}; {c:?}"), replay.clone());
-                            facts.push(("server.started".into(), json!(false)));
-                            return SigResult { facts, machinery: None };
-                        }
-                    }
-                }
-                match tcp_observe(lease.port, &ccfg).await {
-                    Ok((der, s)) => {
-                        started = Some((task, lease, der, s));
-                        break 'attempts;
-                    }
-                    Err(e) => last_fail = format!("no TLS connection to the server within {SIG_START_DEADLINE:?} (last: {e})"),
-                }
-                if Instant::now() >= deadline {
-                    task.abort();
-                    continue 'attempts;
-                }
-                tokio::time::sleep(Duration::from_millis(25)).await;
+        let SigServer { task, lease, first_der, mut first } = match start_sig_server(ida, &live_cert, &live_key, c.client_ca.then(|| pki.ca_client.path.clone()), &ccfg, &format!("{c:?}"), sink, &replay).await {
+            SigStart::Up(s) => s,
+            SigStart::Failed => {
+                facts.push(("server.started".into(), json!(false)));
+                return SigResult { facts, machinery: None };
             }
-        }
-        let Some((task, lease, first_der, mut first)) = started else {
-            return SigResult { facts, machinery: Some(format!("signal-reload: the server could not be started in {SIG_START_ATTEMPTS} attempts: {last_fail}")) };
+            SigStart::Machinery(m) => return SigResult { facts, machinery: Some(m) },
         };
         counters.evals.fetch_add(1, Ordering::Relaxed);
         facts.push(("server.started".into(), json!(true)));
@@ -1416,6 +1444,690 @@ fn exec_sig_case(pki: &Pki, c: &SigCase, sink: &Sink<'_>, counters: &Counters) -
         Err(p) => {
             sink.viol("sigreload.panic".into(), format!("panic in signal-reload history {c:?}: {p}"), c.to_json());
             Ok(SigResult { facts: vec![("panicked".into(), json!(p))], machinery: None })
+        }
+    }
+}
+
+// ---------------------------------------------------------------------------------------
+// Returning client: ONE `rustls::ClientConfig` (hence one client-side session store) for a whole reload history
+//
+// Every other pass builds a fresh client configuration per handshake, so nothing is ever resumed there. An ordinary
+// TLS client keeps its tickets / session ids and offers them when it comes back. The statement is about "later
+// handshakes", resumed or not: a handshake after a reload is governed by the identity then in force, i.e. the client
+// is shown the NEW certificate and it is admitted iff it presents a certificate issued under the NEW client CA.
+//
+// A history starts from identity A (client CA as given by the case, always one that admits the client), makes one
+// full handshake with an echo round trip (so that the server's NewSessionTicket messages are consumed) and a clean
+// close, then runs the steps: "again" = connect again, no reload; "X/ca" = reload to identity X in {A, B} with client
+// CA ca in {none, ca1, ca2}, then connect again. Same client configuration throughout.
+//
+// What the client was shown is judged by `peer_certificates()` of the NEW connection (with a resumed session rustls
+// reports the certificate of the original session: exactly the staleness looked for), next to `handshake_kind()` and
+// (harness clients) the certificate handed to the verifier in this very handshake.
+//
+// Vacuity: the first step "again" of a history directly follows a successful full handshake without any reload; it
+// MUST be a resumption, otherwise this set-up does not resume at all and the pass would say nothing (MACHINERY).
+// ---------------------------------------------------------------------------------------
+
+/// the returning clients: harness-owned (TLS 1.3 only / TLS 1.2 only; accepts any server certificate and records the
+/// one presented) and the subject's own `tls::make_client_config` (verifies against the trusted CA)
+const RET_CLIENTS: [&str; 3] = ["harness-tls13", "harness-tls12", "subject-make_client_config"];
+const RET_STEPS: [&str; 7] = ["again", "A/none", "A/ca1", "A/ca2", "B/none", "B/ca1", "B/ca2"];
+/// (client certificate, client CA in force at the start): the client must get in at the start
+const RET_STARTS: [(&str, &str); 3] = [("none", "none"), ("client-ca", "none"), ("client-ca", "ca1")];
+const RET_SIG: &str = "sigusr1";
+const RET_NO_RELOAD: &str = "no-reload";
+
+#[derive(Clone, Debug, PartialEq, Eq, Hash)]
+struct RetCase {
+    alg: String,
+    /// "library.<RELOAD_HOW>", "sigusr1" (running `server_main`), "no-reload" (histories made of "again" only)
+    mechanism: String,
+    client: String,
+    /// "none" | "client-ca" (issued by ca1)
+    client_cert: String,
+    /// client CA in force at the start: "none" | "ca1"
+    ca0: String,
+    history: Vec<String>,
+}
+
+impl RetCase {
+    fn to_json(&self) -> Value {
+        json!({"kind": "returning-client", "alg": self.alg, "mechanism": self.mechanism, "client": self.client, "client_cert": self.client_cert,
+               "client_ca_at_start": self.ca0, "history": self.history,
+               "identities": "A = trusted-ca/localhost (in force at the start), B = trusted-ca-2/localhost; ca1 = the client CA, ca2 = the other CA",
+               "step": "\"again\": the same client (same rustls ClientConfig, session store kept) connects again; \"X/ca\": the identity is replaced by X with client CA ca through the mechanism, then the same client connects again; every connection: handshake, one byte each way (HTTP request/response over SIGUSR1), clean close"})
+    }
+    fn from_json(v: &Value) -> Self {
+        let s = |k: &str| v[k].as_str().unwrap_or_else(|| panic!("replay: missing {k}")).to_string();
+        let history: Vec<String> = v["history"].as_array().expect("replay: history").iter().map(|s| s.as_str().expect("replay: history entry").to_string()).collect();
+        for h in &history {
+            assert!(RET_STEPS.contains(&h.as_str()), "replay: unknown history step {h}");
+        }
+        let c = Self { alg: s("alg"), mechanism: s("mechanism"), client: s("client"), client_cert: s("client_cert"), ca0: s("client_ca_at_start"), history };
+        assert!(RET_CLIENTS.contains(&c.client.as_str()), "replay: unknown client {}", c.client);
+        assert!(RET_STARTS.contains(&(c.client_cert.as_str(), c.ca0.as_str())), "replay: start ({}, {}) does not admit the client", c.client_cert, c.ca0);
+        c
+    }
+    fn flavour_index(&self) -> usize {
+        RET_CLIENTS.iter().position(|f| *f == self.client).expect("client flavour")
+    }
+}
+
+/// "X/ca" -> (X, ca); "again" -> None
+fn ret_step(sym: &str) -> Option<(&str, &str)> {
+    sym.split_once('/')
+}
+
+fn ret_histories(alphabet: &[&str], len: usize) -> Vec<Vec<String>> {
+    let mut v: Vec<Vec<String>> = vec![vec![]];
+    for _ in 0..len {
+        v = v.into_iter().flat_map(|h| alphabet.iter().map(move |s| h.iter().cloned().chain([(*s).to_string()]).collect::<Vec<String>>())).collect();
+    }
+    v
+}
+
+/// Library mechanisms: every client x start x reload method x every history of length 1..=2 over the 7 steps (quick);
+/// thorough: length 1..=3 for the first key algorithm, 1..=2 for the others. Histories without a reload step do not
+/// depend on the method and appear once ("no-reload").
+/// SIGUSR1 (sequential, real time): `server_main` cannot gain or lose its client CA at run time, only the content of
+/// the CA file changes, so the steps are {again, A, B} without a client CA and {again, A/ca1, B/ca1, A/ca2, B/ca2}
+/// with one. Quick: harness TLS 1.3 client, every history of length 1. Thorough: that client with every history of
+/// length 1..=2, the other two clients with every history of length 1.
+fn ret_domain(algs: &[&str], thorough: bool) -> Vec<RetCase> {
+    let mut out = Vec::new();
+    for (ai, alg) in algs.iter().enumerate() {
+        let max = if thorough && ai == 0 { 3 } else { 2 };
+        for client in RET_CLIENTS {
+            for (client_cert, ca0) in RET_STARTS {
+                for len in 1..=max {
+                    for h in ret_histories(&RET_STEPS, len) {
+                        let mk = |mechanism: String| RetCase { alg: (*alg).into(), mechanism, client: client.into(), client_cert: client_cert.into(), ca0: ca0.into(), history: h.clone() };
+                        if h.iter().all(|s| s == "again") {
+                            out.push(mk(RET_NO_RELOAD.into()));
+                        } else {
+                            for how in RELOAD_HOW {
+                                out.push(mk(format!("library.{how}")));
+                            }
+                        }
+                    }
+                }
+            }
+        }
+    }
+    let first = algs[0];
+    for (ci, client) in RET_CLIENTS.iter().enumerate() {
+        if !thorough && ci > 0 {
+            break;
+        }
+        let max = if thorough && ci == 0 { 2 } else { 1 };
+        for (client_cert, ca0) in RET_STARTS {
+            let alphabet: &[&str] = if ca0 == "none" { &["again", "A/none", "B/none"] } else { &["again", "A/ca1", "B/ca1", "A/ca2", "B/ca2"] };
+            for len in 1..=max {
+                for h in ret_histories(alphabet, len) {
+                    out.push(RetCase { alg: first.into(), mechanism: RET_SIG.into(), client: (*client).into(), client_cert: client_cert.into(), ca0: ca0.into(), history: h });
+                }
+            }
+        }
+    }
+    out
+}
+
+/// Accepts any server certificate (signatures are still checked) and records every end-entity certificate it was
+/// handed: rustls calls the verifier exactly in the handshakes in which the server presents a certificate.
+#[derive(Debug)]
+struct RecordingVerifier {
+    prov: Arc<CryptoProvider>,
+    presented: Mutex<Vec<Vec<u8>>>,
+}
+
+impl ServerCertVerifier for RecordingVerifier {
+    fn verify_server_cert(&self, ee: &CertificateDer<'_>, _: &[CertificateDer<'_>], _: &ServerName<'_>, _: &[u8], _: UnixTime) -> Result<ServerCertVerified, rustls::Error> {
+        self.presented.lock().unwrap_or_else(std::sync::PoisonError::into_inner).push(ee.to_vec());
+        Ok(ServerCertVerified::assertion())
+    }
+    fn verify_tls12_signature(&self, m: &[u8], c: &CertificateDer<'_>, d: &DigitallySignedStruct) -> Result<HandshakeSignatureValid, rustls::Error> {
+        rustls::crypto::verify_tls12_signature(m, c, d, &self.prov.signature_verification_algorithms)
+    }
+    fn verify_tls13_signature(&self, m: &[u8], c: &CertificateDer<'_>, d: &DigitallySignedStruct) -> Result<HandshakeSignatureValid, rustls::Error> {
+        rustls::crypto::verify_tls13_signature(m, c, d, &self.prov.signature_verification_algorithms)
+    }
+    fn supported_verify_schemes(&self) -> Vec<SignatureScheme> {
+        self.prov.signature_verification_algorithms.supported_schemes()
+    }
+}
+
+/// The returning client: ONE configuration, cloned `Arc`s of which make every connection of a history.
+struct RetClient {
+    cfg: Arc<ClientConfig>,
+    rec: Option<Arc<RecordingVerifier>>,
+}
+
+impl RetClient {
+    fn presented_so_far(&self) -> usize {
+        self.rec.as_ref().map_or(0, |r| r.presented.lock().unwrap_or_else(std::sync::PoisonError::into_inner).len())
+    }
+    /// the certificate handed to the verifier since `mark` (the last one, if several)
+    fn presented_since(&self, mark: usize) -> Option<Vec<u8>> {
+        self.rec.as_ref().and_then(|r| r.presented.lock().unwrap_or_else(std::sync::PoisonError::into_inner).get(mark..).and_then(|s| s.last().cloned()))
+    }
+}
+
+async fn ret_client(pki: &Pki, flavour: &str, client_cert: &str) -> Result<RetClient, String> {
+    let id = pki.client(client_cert);
+    match flavour {
+        "subject-make_client_config" => {
+            // session storage: whatever the subject's client configuration does (rustls default: enabled)
+            let cfg = tls::make_client_config(id.map(|c| c.cert_path.as_str()), id.map(|c| c.key_path.as_str()), Some(&pki.ca_trusted.path), false, None).await.map_err(|e| e.to_string())?;
+            Ok(RetClient { cfg: Arc::new(cfg), rec: None })
+        }
+        "harness-tls13" | "harness-tls12" => {
+            let prov = provider();
+            let versions: &[&rustls::SupportedProtocolVersion] = if flavour == "harness-tls13" { &[&rustls::version::TLS13] } else { &[&rustls::version::TLS12] };
+            let rec = Arc::new(RecordingVerifier { prov: prov.clone(), presented: Mutex::new(Vec::new()) });
+            let b = ClientConfig::builder_with_provider(prov).with_protocol_versions(versions).map_err(|e| e.to_string())?.dangerous().with_custom_certificate_verifier(rec.clone());
+            let mut cfg = match id {
+                Some(id) => b.with_client_auth_cert(vec![CertificateDer::from(id.cert_der.clone())], PrivateKeyDer::Pkcs8(PrivatePkcs8KeyDer::from(id.key_der.clone()))).map_err(|e| e.to_string())?,
+                None => b.with_no_client_auth(),
+            };
+            // what an ordinary client has: tickets and session ids are kept in memory
+            cfg.resumption = rustls::client::Resumption::in_memory_sessions(64);
+            Ok(RetClient { cfg: Arc::new(cfg), rec: Some(rec) })
+        }
+        other => panic!("unknown returning client {other}"),
+    }
+}
+
+#[derive(Clone, Debug, Default)]
+struct RetObs {
+    /// (TCP only) no TCP connection at all
+    no_tcp: bool,
+    connect_ok: bool,
+    client_err: String,
+    /// in memory: the server side's `accept`; over TCP the server side is not visible
+    accept_ok: Option<bool>,
+    server_err: String,
+    echo_ok: bool,
+    echo_err: String,
+    kind: Option<rustls::HandshakeKind>,
+    server_kind: Option<rustls::HandshakeKind>,
+    /// `peer_certificates()[0]` of this connection on the client
+    sees: Option<Vec<u8>>,
+    /// certificate handed to the client's verifier during this handshake (harness clients)
+    presented: Option<Vec<u8>>,
+    /// in memory: the server's `peer_certificates()`
+    server_peer_certs: Option<Vec<Vec<u8>>>,
+    timed_out: bool,
+}
+
+impl RetObs {
+    fn accepted(&self) -> bool {
+        self.accept_ok == Some(true) || self.echo_ok
+    }
+    fn success(&self) -> bool {
+        self.connect_ok && self.echo_ok && self.accept_ok != Some(false)
+    }
+    fn resumed(&self) -> bool {
+        self.kind == Some(rustls::HandshakeKind::Resumed) || self.server_kind == Some(rustls::HandshakeKind::Resumed)
+    }
+}
+
+fn kind_text(k: Option<rustls::HandshakeKind>) -> &'static str {
+    match k {
+        None => "none",
+        Some(rustls::HandshakeKind::Full) => "full",
+        Some(rustls::HandshakeKind::FullWithHelloRetryRequest) => "full-with-hello-retry",
+        Some(rustls::HandshakeKind::Resumed) => "resumed",
+    }
+}
+
+/// One connection of the returning client over an in-memory pipe. The server side does what `server_main` does with
+/// an accepted TCP connection: wait for the ClientHello, THEN take the identity in force (`LazyConfigAcceptor`).
+async fn ret_handshake_mem(ident: &tls::TlsIdentity, client: &RetClient) -> RetObs {
+    let mark = client.presented_so_far();
+    let (cio, sio) = tokio::io::duplex(1 << 16);
+    let client_side = async {
+        let mut o = RetObs::default();
+        match tokio_rustls::TlsConnector::from(client.cfg.clone()).connect(ServerName::try_from("localhost").expect("name"), cio).await {
+            Err(e) => o.client_err = e.to_string(),
+            Ok(mut s) => {
+                o.connect_ok = true;
+                o.kind = s.get_ref().1.handshake_kind();
+                o.sees = s.get_ref().1.peer_certificates().and_then(|c| c.first().map(|x| x.to_vec()));
+                // the round trip: the reply byte comes after the server's NewSessionTicket messages
+                let mut b = [0u8; 1];
+                let r: std::io::Result<()> = async {
+                    s.write_all(b"c").await?;
+                    s.flush().await?;
+                    s.read_exact(&mut b).await?;
+                    Ok(())
+                }
+                .await;
+                match r {
+                    Ok(()) => o.echo_ok = b[0] == b's',
+                    Err(e) => o.echo_err = e.to_string(),
+                }
+                // clean close: close_notify out, then read to the server's
+                let _ = s.shutdown().await;
+                let mut sinkbuf = [0u8; 64];
+                while matches!(s.read(&mut sinkbuf).await, Ok(n) if n > 0) {}
+            }
+        }
+        o
+    };
+    let server_side = async {
+        let start = tokio_rustls::LazyConfigAcceptor::new(rustls::server::Acceptor::default(), sio).await.map_err(|e| e.to_string())?;
+        let mut s = start.into_stream(ident.load_full()).await.map_err(|e| e.to_string())?;
+        let kind = s.get_ref().1.handshake_kind();
+        let certs = s.get_ref().1.peer_certificates().map(|c| c.iter().map(|x| x.to_vec()).collect::<Vec<_>>());
+        let mut b = [0u8; 1];
+        let echo = s.read_exact(&mut b).await.is_ok() && b[0] == b'c' && s.write_all(b"s").await.is_ok() && s.flush().await.is_ok();
+        let mut sinkbuf = [0u8; 64];
+        while matches!(s.read(&mut sinkbuf).await, Ok(n) if n > 0) {}
+        let _ = s.shutdown().await;
+        Ok::<_, String>((kind, certs, echo))
+    };
+    let Ok((mut o, sr)) = tokio::time::timeout(Duration::from_secs(30), async { tokio::join!(client_side, server_side) }).await else {
+        return RetObs { timed_out: true, ..RetObs::default() };
+    };
+    match sr {
+        Ok((kind, certs, echo)) => {
+            o.accept_ok = Some(true);
+            o.server_kind = kind;
+            o.server_peer_certs = certs;
+            o.echo_ok = o.echo_ok && echo;
+        }
+        Err(e) => {
+            o.accept_ok = Some(false);
+            o.server_err = e;
+        }
+    }
+    o.presented = client.presented_since(mark);
+    o
+}
+
+/// One connection over loopback TCP to the running `server_main`; the round trip is an HTTP request / the first bytes
+/// of the response.
+async fn ret_handshake_tcp(port: u16, cfg: &Arc<ClientConfig>, client: Option<&RetClient>) -> RetObs {
+    let mark = client.map_or(0, RetClient::presented_so_far);
+    let fut = async {
+        let mut o = RetObs::default();
+        let tcp = match tokio::net::TcpStream::connect(("127.0.0.1", port)).await {
+            Ok(t) => t,
+            Err(e) => {
+                o.no_tcp = true;
+                o.client_err = format!("connect: {e}");
+                return o;
+            }
+        };
+        match tokio_rustls::TlsConnector::from(cfg.clone()).connect(ServerName::try_from("localhost").expect("name"), tcp).await {
+            Err(e) => o.client_err = e.to_string(),
+            Ok(mut s) => {
+                o.connect_ok = true;
+                o.kind = s.get_ref().1.handshake_kind();
+                o.sees = s.get_ref().1.peer_certificates().and_then(|c| c.first().map(|x| x.to_vec()));
+                let mut b = [0u8; 5];
+                let r: std::io::Result<()> = async {
+                    s.write_all(b"GET / HTTP/1.1\r\nHost: x\r\n\r\n").await?;
+                    s.flush().await?;
+                    s.read_exact(&mut b).await?;
+                    Ok(())
+                }
+                .await;
+                match r {
+                    Ok(()) => o.echo_ok = &b == b"HTTP/",
+                    Err(e) => o.echo_err = e.to_string(),
+                }
+                let _ = s.shutdown().await;
+            }
+        }
+        o
+    };
+    let mut o = tokio::time::timeout(Duration::from_secs(10), fut).await.unwrap_or(RetObs { timed_out: true, ..RetObs::default() });
+    o.presented = client.and_then(|c| c.presented_since(mark));
+    o
+}
+
+#[derive(Default)]
+struct RetStats {
+    histories: AtomicU64,
+    sig_histories: AtomicU64,
+    handshakes: AtomicU64,
+    /// per RET_CLIENTS entry: resumed handshakes in a step without reload
+    resumed_without_reload: [AtomicU64; 3],
+    resumed_across_reload: AtomicU64,
+    full_after_reload: AtomicU64,
+    expected_accepts: AtomicU64,
+    expected_rejections: AtomicU64,
+    observed_rejections: AtomicU64,
+    controls_run: AtomicU64,
+    controls_resumed: AtomicU64,
+    control_failures: Mutex<Vec<String>>,
+}
+
+struct RetResult {
+    facts: Facts,
+    machinery: Option<String>,
+}
+
+static RET_SEQ: AtomicU64 = AtomicU64::new(0);
+
+/// Reference: is a client with that certificate admitted while that client CA is in force?
+fn ret_admitted(client_cert: &str, ca: &str) -> bool {
+    match (ca, client_cert) {
+        ("none", _) | ("ca1", "client-ca") => true,
+        ("ca1" | "ca2", "none") | ("ca2", "client-ca") => false,
+        other => panic!("unknown (client CA, client certificate) {other:?}"),
+    }
+}
+
+/// Judges the returning client's connection made while (`ident`, `ca`) is in force. `done` = the steps so far.
+#[allow(clippy::too_many_arguments)]
+fn judge_ret_handshake(pki: &Pki, c: &RetCase, tag: &str, done: &[String], reload_in_step: bool, ident: &str, ca: &str, o: &RetObs, sink: &Sink<'_>, facts: &mut Facts, stats: &RetStats) {
+    let replay = c.to_json();
+    let a = &pki.server("trusted-ca", "localhost").cert_der;
+    let b = &pki.server("trusted-ca-2", "localhost").cert_der;
+    let label = |d: Option<&Vec<u8>>| match d {
+        None => "none",
+        Some(d) if d == a => "A",
+        Some(d) if d == b => "B",
+        Some(_) => "other",
+    };
+    let expect = ret_admitted(&c.client_cert, ca);
+    stats.handshakes.fetch_add(1, Ordering::Relaxed);
+    if expect { &stats.expected_accepts } else { &stats.expected_rejections }.fetch_add(1, Ordering::Relaxed);
+    if !o.accepted() {
+        stats.observed_rejections.fetch_add(1, Ordering::Relaxed);
+    }
+    if o.resumed() {
+        if reload_in_step {
+            stats.resumed_across_reload.fetch_add(1, Ordering::Relaxed);
+        } else {
+            stats.resumed_without_reload[c.flavour_index()].fetch_add(1, Ordering::Relaxed);
+        }
+    } else if reload_in_step && o.connect_ok {
+        stats.full_after_reload.fetch_add(1, Ordering::Relaxed);
+    }
+    facts.push((format!("{tag}.accepted"), json!(o.accepted())));
+    facts.push((format!("{tag}.handshake"), json!(kind_text(o.kind))));
+    facts.push((format!("{tag}.sees"), json!(label(o.sees.as_ref()))));
+    facts.push((format!("{tag}.presented-now"), json!(label(o.presented.as_ref()))));
+    if o.accept_ok.is_some() {
+        facts.push((format!("{tag}.server-handshake"), json!(kind_text(o.server_kind))));
+        facts.push((format!("{tag}.server-peer-certs"), json!(o.server_peer_certs.as_ref().map(Vec::len))));
+    }
+    let ctx = format!(
+        "returning client {} (one ClientConfig for the whole history, client certificate {}), mechanism {}; start: identity A, client CA {}; steps so far {done:?}; now in force: identity {ident}, client CA {ca}; this connection: handshake {} (server side: {}), client connect ok={} ({:?}), server accept {:?} ({:?}), round trip ok={} ({:?}), client's peer_certificates() = identity {}, certificate handed to its verifier in this handshake: {}",
+        c.client,
+        c.client_cert,
+        c.mechanism,
+        c.ca0,
+        kind_text(o.kind),
+        kind_text(o.server_kind),
+        o.connect_ok,
+        o.client_err,
+        o.accept_ok,
+        o.server_err,
+        o.echo_ok,
+        o.echo_err,
+        label(o.sees.as_ref()),
+        if c.client.starts_with("harness") { label(o.presented.as_ref()) } else { "not recorded" },
+    );
+    if o.timed_out {
+        sink.viol("reload.returning-client.hang".into(), format!("the connection did not finish within its deadline; {ctx}"), replay);
+        return;
+    }
+    if o.no_tcp {
+        sink.viol("reload.returning-client.no-connection".into(), format!("the running server no longer takes TCP connections; {ctx}"), replay);
+        return;
+    }
+    // --- admitted exactly as the identity NOW in force says
+    if expect {
+        if !o.success() {
+            sink.viol("reload.returning-client-rejected-wrongly".into(), format!("the client must be admitted (no client CA in force, or its certificate is issued by the one in force) but the connection failed; {ctx}"), replay.clone());
+        }
+    } else if o.accepted() {
+        if c.client_cert == "none" {
+            sink.viol("reload.returning-client-accepted-without-client-cert".into(), format!("a client CA is in force and the client has no certificate, yet the server completed the handshake / served the connection; {ctx}"), replay.clone());
+        } else {
+            sink.viol("reload.returning-client-accepted-under-replaced-ca".into(), format!("the client's certificate is issued by ca1, the client CA in force is {ca}, yet the server completed the handshake / served the connection; {ctx}"), replay.clone());
+        }
+    }
+    // --- shown the certificate NOW in force
+    if o.connect_ok && o.echo_ok {
+        match (label(o.sees.as_ref()), ident) {
+            (seen, want) if seen == want => {}
+            ("A" | "B", _) => sink.viol(
+                "reload.returning-client-sees-old-certificate".into(),
+                format!("the identity in force is {ident} but this connection of the returning client carries the certificate of the other identity ({}); {ctx}", if o.resumed() { "the handshake was a resumption: the server never presented its current certificate" } else { "full handshake" }),
+                replay.clone(),
+            ),
+            _ => sink.viol("reload.returning-client-sees-other-certificate".into(), format!("the connection carries neither identity's certificate; {ctx}"), replay.clone()),
+        }
+    }
+    // --- what the server knows about its peer (visible in memory only)
+    if o.accept_ok == Some(true) {
+        if ca == "none" && o.server_peer_certs.is_some() {
+            sink.viol("server.peer-certs-without-client-ca".into(), format!("no client CA is in force, yet the server's connection reports a client certificate; {ctx}"), replay);
+        } else if ca != "none" && expect && o.server_peer_certs != pki.client(&c.client_cert).map(|i| vec![i.cert_der.clone()]) {
+            sink.viol("reload.returning-client-not-authenticated".into(), format!("a client CA is in force and the handshake completed, but the server's peer_certificates() is not the client's chain (the client was never asked to authenticate under the CA in force); {ctx}"), replay);
+        }
+    }
+}
+
+/// Runs one returning-client history. Library mechanisms: in memory; `sigusr1`: against a running `server_main`
+/// (the caller makes sure no other SIGUSR1 history runs at the same time).
+async fn run_ret_case(pki: &Pki, c: &RetCase, sink: &Sink<'_>, counters: &Counters, stats: &RetStats) -> Result<RetResult, String> {
+    use std::time::Instant;
+    catch(async {
+        let mut facts: Facts = Vec::new();
+        let replay = c.to_json();
+        let ida = pki.server("trusted-ca", "localhost");
+        let idb = pki.server("trusted-ca-2", "localhost");
+        let id_of = |x: &str| if x == "A" { ida } else { idb };
+        let ca_path = |ca: &str| match ca {
+            "none" => None,
+            "ca1" => Some(pki.ca_client.path.as_str()),
+            "ca2" => Some(pki.ca_other.path.as_str()),
+            other => panic!("unknown client CA {other}"),
+        };
+        let sig = c.mechanism == RET_SIG;
+        let client = match ret_client(pki, &c.client, &c.client_cert).await {
+            Ok(cl) => cl,
+            Err(e) => {
+                sink.viol("reload.returning-client.client-config-rejected".into(), format!("the client configuration cannot be built from well-formed files: {e}; {c:?}"), replay);
+                return RetResult { facts, machinery: None };
+            }
+        };
+        // live files of this execution only
+        let tag = format!("{}/ret-{}", pki.dir_path, RET_SEQ.fetch_add(1, Ordering::Relaxed));
+        let (live_cert, live_key, live_ca) = (format!("{tag}.cert.pem"), format!("{tag}.key.pem"), format!("{tag}.ca.pem"));
+        write(&live_cert, &ida.cert_pem);
+        write(&live_key, &ida.key_pem);
+        let ca_pem = |ca: &str| std::fs::read_to_string(ca_path(ca).expect("a client CA")).expect("CA file");
+
+        enum Srv {
+            Lib(tls::TlsIdentity),
+            Sig(SigServer, Arc<ClientConfig>),
+        }
+        let srv = if sig {
+            // fresh, non-resuming probe client of the same kind: tells when a reload has been applied
+            let probe = sig_client_config(pki, c.client_cert == "client-ca");
+            let tls_ca = (c.ca0 != "none").then(|| {
+                write(&live_ca, &ca_pem(&c.ca0));
+                live_ca.clone()
+            });
+            match start_sig_server(ida, &live_cert, &live_key, tls_ca, &probe, &format!("{c:?}"), sink, &replay).await {
+                SigStart::Up(s) => Srv::Sig(s, probe),
+                SigStart::Failed => {
+                    facts.push(("server.started".into(), json!(false)));
+                    return RetResult { facts, machinery: None };
+                }
+                SigStart::Machinery(m) => return RetResult { facts, machinery: Some(m) },
+            }
+        } else {
+            match tls::make_tls_identity(&live_cert, &live_key, ca_path(&c.ca0)).await {
+                Ok(i) => Srv::Lib(i),
+                Err(e) => {
+                    sink.viol("server.config-rejected.make_tls_identity".into(), format!("{e}; {c:?}"), replay.clone());
+                    return RetResult { facts, machinery: None };
+                }
+            }
+        };
+        counters.evals.fetch_add(1, Ordering::Relaxed);
+        let connect = async |srv: &Srv| match srv {
+            Srv::Lib(ident) => ret_handshake_mem(ident, &client).await,
+            Srv::Sig(s, _) => ret_handshake_tcp(s.lease.port, &client.cfg, Some(&client)).await,
+        };
+
+        let (mut ident, mut ca) = ("A".to_string(), c.ca0.clone());
+        let mut machinery = None;
+        // ---- the first visit: full handshake, tickets / session id taken home
+        let o0 = connect(&srv).await;
+        counters.evals.fetch_add(1, Ordering::Relaxed);
+        judge_ret_handshake(pki, c, "first", &[], false, &ident, &ca, &o0, sink, &mut facts, stats);
+        let mut go_on = o0.success();
+        if go_on && o0.resumed() {
+            machinery = Some(format!("returning-client: the very first handshake of a new client configuration is reported as a resumption; {c:?}"));
+            go_on = false;
+        }
+        // ---- the steps
+        for (i, sym) in c.history.iter().enumerate() {
+            if !go_on {
+                break;
+            }
+            let tag = format!("step{}.{sym}", i + 1);
+            let done = &c.history[..=i];
+            if let Some((x, new_ca)) = ret_step(sym) {
+                let new = id_of(x);
+                let changed = x != ident || new_ca != ca;
+                match &srv {
+                    Srv::Lib(tls_ident) => {
+                        let r = match c.mechanism.as_str() {
+                            "library.same-paths-overwritten" => {
+                                write(&live_cert, &new.cert_pem);
+                                write(&live_key, &new.key_pem);
+                                tls::reload_tls_identity(tls_ident, &live_cert, &live_key, ca_path(new_ca)).await
+                            }
+                            "library.other-paths" => tls::reload_tls_identity(tls_ident, &new.cert_path, &new.key_path, ca_path(new_ca)).await,
+                            "library.from-pem" => tls::reload_tls_identity_from_pem(tls_ident, new.cert_pem.clone(), new.key_pem.clone(), ca_path(new_ca)).await,
+                            other => panic!("unknown mechanism {other}"),
+                        };
+                        counters.evals.fetch_add(1, Ordering::Relaxed);
+                        facts.push((format!("{tag}.reload-ok"), json!(r.is_ok())));
+                        if let Err(e) = r {
+                            sink.viol(format!("reload.fails.{}", c.mechanism.trim_start_matches("library.")), format!("reloading to a well-formed identity fails: {e}; {c:?}, steps so far {done:?}"), replay.clone());
+                            break;
+                        }
+                    }
+                    Srv::Sig(s, probe) => {
+                        assert!((new_ca == "none") == (c.ca0 == "none"), "a running server_main cannot gain or lose its client CA");
+                        write(&live_cert, &new.cert_pem);
+                        write(&live_key, &new.key_pem);
+                        if new_ca != "none" {
+                            write(&live_ca, &ca_pem(new_ca));
+                        }
+                        // never raise SIGUSR1 unless a handler is in place (the default action kills the process)
+                        if !sigusr1_has_handler() {
+                            machinery = Some("returning-client: no SIGUSR1 handler is installed although the server is up; not raising the signal".to_string());
+                            break;
+                        }
+                        if !raise_sigusr1() {
+                            machinery = Some("returning-client: raise(SIGUSR1) failed".to_string());
+                            break;
+                        }
+                        if changed {
+                            // a FRESH client of the same kind must observe the new state before the returning one is judged:
+                            // new certificate, and admitted exactly as the new client CA says (a rejection must be a positive
+                            // one: handshake done, then the round trip refused, not a timeout)
+                            let want_der = &new.cert_der;
+                            let want_in = ret_admitted(&c.client_cert, new_ca);
+                            let deadline = Instant::now() + SIG_APPLY_DEADLINE;
+                            let mut last;
+                            let mut applied;
+                            loop {
+                                let p = ret_handshake_tcp(s.lease.port, probe, None).await;
+                                counters.evals.fetch_add(1, Ordering::Relaxed);
+                                applied = p.connect_ok && !p.timed_out && p.sees.as_ref() == Some(want_der) && p.echo_ok == want_in;
+                                last = format!("connect ok={} ({:?}), certificate is the new one: {}, round trip ok={} ({:?})", p.connect_ok, p.client_err, p.sees.as_ref() == Some(want_der), p.echo_ok, p.echo_err);
+                                if applied || Instant::now() >= deadline {
+                                    break;
+                                }
+                                tokio::time::sleep(Duration::from_millis(20)).await;
+                            }
+                            facts.push((format!("{tag}.applied"), json!(applied)));
+                            if !applied {
+                                sink.viol(
+                                    "sigreload.not-applied".into(),
+                                    format!("running server_main, live certificate/key{} files rewritten + SIGUSR1 for each of {done:?}: {SIG_APPLY_DEADLINE:?} after the last signal a fresh client (certificate {}) still gets: {last}; expected identity {x}, admitted={want_in}", if new_ca == "none" { "" } else { "/client-CA" }, c.client_cert),
+                                    replay.clone(),
+                                );
+                                break;
+                            }
+                        } else {
+                            tokio::time::sleep(SIG_SETTLE).await;
+                        }
+                    }
+                }
+                ident = x.to_string();
+                ca = new_ca.to_string();
+            }
+            let o = connect(&srv).await;
+            counters.evals.fetch_add(1, Ordering::Relaxed);
+            judge_ret_handshake(pki, c, &tag, done, ret_step(sym).is_some(), &ident, &ca, &o, sink, &mut facts, stats);
+            // control: right after the successful first visit, nothing reloaded: this set-up must resume
+            if i == 0 && sym == "again" {
+                stats.controls_run.fetch_add(1, Ordering::Relaxed);
+                if o.resumed() {
+                    stats.controls_resumed.fetch_add(1, Ordering::Relaxed);
+                } else if o.success() {
+                    stats.control_failures.lock().unwrap_or_else(std::sync::PoisonError::into_inner).push(format!("{} / client certificate {} / client CA {} / {}: second visit without reload was a {} handshake", c.client, c.client_cert, c.ca0, c.mechanism, kind_text(o.kind)));
+                }
+            }
+            if o.timed_out || o.no_tcp {
+                break;
+            }
+        }
+        if let Srv::Sig(s, _) = srv {
+            let SigServer { task, lease, first, .. } = s;
+            drop(first);
+            if task.is_finished() {
+                if let Err(je) = task.await {
+                    if je.is_panic() {
+                        sink.viol("sigreload.panic".into(), format!("server_main panicked during the returning-client history {c:?}: {}", panic_text(&*je.into_panic())), replay);
+                    }
+                }
+            } else {
+                task.abort();
+            }
+            drop(lease);
+        }
+        RetResult { facts, machinery }
+    })
+    .await
+}
+
+/// One returning-client history; a SIGUSR1 one gets a runtime of its own (dropped at the end, which removes that
+/// server's listener and signal task), like the signal-reload histories.
+fn exec_ret_case(rt: &tokio::runtime::Runtime, pki: &Pki, c: &RetCase, sink: &Sink<'_>, counters: &Counters, stats: &RetStats) -> RetResult {
+    let r = if c.mechanism == RET_SIG {
+        if let Err(m) = install_sigusr1_guard() {
+            return RetResult { facts: Vec::new(), machinery: Some(m) };
+        }
+        let own = runtime();
+        let r = own.block_on(run_ret_case(pki, c, sink, counters, stats));
+        drop(own);
+        stats.sig_histories.fetch_add(1, Ordering::Relaxed);
+        r
+    } else {
+        rt.block_on(run_ret_case(pki, c, sink, counters, stats))
+    };
+    stats.histories.fetch_add(1, Ordering::Relaxed);
+    match r {
+        Ok(res) => res,
+        Err(p) => {
+            sink.viol("reload.returning-client.panic".into(), format!("panic in returning-client history {c:?}: {p}"), c.to_json());
+            RetResult { facts: vec![("panicked".into(), json!(p))], machinery: None }
         }
     }
 }
@@ -1661,6 +2373,7 @@ fn replay(args: &Args, v: &Value, mut rep: Report) -> Report {
     let counters = Counters { evals: AtomicU64::new(0) };
     let mut observations = Vec::new();
     let mut machinery: Option<String> = None;
+    let ret_stats = RetStats::default();
     for _ in 0..2 {
         let o = match v["kind"].as_str() {
             Some("signal-reload") => {
@@ -1675,6 +2388,12 @@ fn replay(args: &Args, v: &Value, mut rep: Report) -> Report {
                         json!({"verdict": {"not_run": true}})
                     }
                 }
+            }
+            Some("returning-client") => {
+                let c = RetCase::from_json(v);
+                let res = exec_ret_case(&rt, &pki, &c, &sink, &counters, &ret_stats);
+                machinery = machinery.or(res.machinery);
+                json!({"verdict": res.facts})
             }
             Some("matrix") => {
                 let c = MatrixCase::from_json(v);
@@ -1739,6 +2458,10 @@ fn replay(args: &Args, v: &Value, mut rep: Report) -> Report {
     }
     rep.distinct_nontrivial = 1;
     rep.rule = "replay of one recorded configuration, executed twice with fresh key material; observations must agree".into();
+    if v["kind"].as_str() == Some("returning-client") {
+        rep.extra.insert("resumed_handshakes_without_reload".into(), json!(ret_stats.resumed_without_reload.iter().map(|a| a.load(Ordering::Relaxed)).sum::<u64>() / 2));
+        rep.extra.insert("resumed_handshakes_across_reload".into(), json!(ret_stats.resumed_across_reload.load(Ordering::Relaxed) / 2));
+    }
     rep.extra.insert("replayed".into(), v.clone());
     rep.extra.insert("observations".into(), json!(observations));
     rep
@@ -1758,7 +2481,7 @@ pub fn run(args: &Args) -> Report {
     }
     let thorough = args.thorough();
     let algs: Vec<&str> = if thorough { ALGS.to_vec() } else { vec!["p256"] };
-    rep.rule = "complete product: key algorithm x server certificate {trusted-CA leaf, other-CA leaf, self-signed, expired trusted-CA leaf} x (certificate name, requested name) x skip-verify x roots given to the client {trusted CA, other CA, none/system} x client certificate {none, client-CA, other-CA, self-signed} x server client-CA {none, set} x server-config constructor; plus harness-client probes (TLS1.2/1.3) of every server configuration, all reload histories A->B (identities, client-CA before/after, reload method), a client-CA file without a usable certificate {empty, key only, not PEM, truncated PEM} at start-up (every constructor) and at reload (every method): refusing is fine, admitting a client without a certificate under a CA is not, and the real client main loop over loopback TCP for every (--hostname, --tls-server-name, certificate name, skip-verify) combination; reload histories through SIGUSR1 on a running server_main (loopback TCP, one after the other): starting from identity A, each step rewrites the live --tls-cert/--tls-key files as one of {good-B, good-A, bad-key = key file truncated, bad-cert = certificate file not PEM} and raises SIGUSR1, then a harness client that accepts any certificate opens a new connection: it must be shown the last well-formed identity written so far (a new identity within 3 s; an unchanged one is looked at once after 300 ms), the connection made before the first signal must still get an HTTP response at the end, and a TLS handshake that only STARTS at the end, on a TCP connection accepted before the first signal and silent since, must be shown the identity then in force; quick tier: every history of length 1..=2 and, of length 3, those whose first step is bad-key/bad-cert and whose last step is good-A/good-B, plus [good-B, bad-key, good-A]; thorough tier: every history of length 1..=4, and every history of length 1..=2 again with a client CA configured and for every further key algorithm; a case is distinct when its configuration tuple is distinct".into();
+    rep.rule = "complete product: key algorithm x server certificate {trusted-CA leaf, other-CA leaf, self-signed, expired trusted-CA leaf} x (certificate name, requested name) x skip-verify x roots given to the client {trusted CA, other CA, none/system} x client certificate {none, client-CA, other-CA, self-signed} x server client-CA {none, set} x server-config constructor; plus harness-client probes (TLS1.2/1.3) of every server configuration, all reload histories A->B (identities, client-CA before/after, reload method), a client-CA file without a usable certificate {empty, key only, not PEM, truncated PEM} at start-up (every constructor) and at reload (every method): refusing is fine, admitting a client without a certificate under a CA is not, and the real client main loop over loopback TCP for every (--hostname, --tls-server-name, certificate name, skip-verify) combination; reload histories through SIGUSR1 on a running server_main (loopback TCP, one after the other): starting from identity A, each step rewrites the live --tls-cert/--tls-key files as one of {good-B, good-A, bad-key = key file truncated, bad-cert = certificate file not PEM} and raises SIGUSR1, then a harness client that accepts any certificate opens a new connection: it must be shown the last well-formed identity written so far (a new identity within 3 s; an unchanged one is looked at once after 300 ms), the connection made before the first signal must still get an HTTP response at the end, and a TLS handshake that only STARTS at the end, on a TCP connection accepted before the first signal and silent since, must be shown the identity then in force; quick tier: every history of length 1..=2 and, of length 3, those whose first step is bad-key/bad-cert and whose last step is good-A/good-B, plus [good-B, bad-key, good-A]; thorough tier: every history of length 1..=4, and every history of length 1..=2 again with a client CA configured and for every further key algorithm; returning-client histories: ONE rustls ClientConfig (session store kept: tickets / session ids) per history, client in {harness TLS1.3, harness TLS1.2 (both record the certificate presented), the subject's make_client_config}, (client certificate, client CA at start) in {(none, none), (under ca1, none), (under ca1, ca1)}, first visit to identity A (full handshake, round trip, clean close), then every sequence of steps over {again = connect again without reload, X/ca = reload to identity X in {A,B} with client CA ca in {none, ca1, ca2} and connect again} of length 1..=2 (thorough: 1..=3 for the first key algorithm) for each of the three library reload methods (server side accepts like server_main: LazyConfigAcceptor, identity taken after the ClientHello), and through SIGUSR1 on a running server_main (client-CA file rewritten; steps {again, A, B} without client CA, {again, A/ca1, B/ca1, A/ca2, B/ca2} with one; quick: harness TLS1.3 client, length 1; thorough: length 1..=2, other clients length 1; a fresh non-resuming client must observe the new state within 3 s before the returning one is judged): every connection must carry the certificate of the identity in force (peer_certificates of that connection) and is served iff no client CA is in force or the client's certificate is issued by the one in force; control: a second visit without any reload must be a resumption, else MACHINERY; a case is distinct when its configuration tuple is distinct".into();
 
     let t0 = std::time::Instant::now();
     let pkis: Vec<(String, Pki)> = algs.iter().map(|a| ((*a).to_string(), Pki::new(a))).collect();
@@ -1771,11 +2494,18 @@ pub fn run(args: &Args) -> Report {
     let names = name_domain(&algs);
     let badcas = bad_ca_domain(&algs);
     let sigs = sig_domain(&algs, thorough);
+    let rets = ret_domain(&algs, thorough);
+    // the SIGUSR1 ones run one after the other inside the signal-reload job, the others are jobs of their own
+    let ret_lib: Vec<usize> = (0..rets.len()).filter(|k| rets[*k].mechanism != RET_SIG).collect();
+    let ret_sig: Vec<usize> = (0..rets.len()).filter(|k| rets[*k].mechanism == RET_SIG).collect();
+    let ret_stats = RetStats::default();
+    let ret_machinery: Mutex<Option<String>> = Mutex::new(None);
     let n_sig_done = AtomicU64::new(0);
     let n_sig_steps_unchanged = AtomicU64::new(0);
     let sig_machinery: Mutex<Option<String>> = Mutex::new(None);
     let sig_wall: Mutex<f64> = Mutex::new(0.0);
-    let distinct = sigs.iter().collect::<HashSet<_>>().len() + badcas.len() + matrix.iter().collect::<HashSet<_>>().len() + probes.iter().collect::<HashSet<_>>().len() + reloads.iter().collect::<HashSet<_>>().len() + names.iter().collect::<HashSet<_>>().len();
+    let ret_sig_wall: Mutex<f64> = Mutex::new(0.0);
+    let distinct = rets.iter().collect::<HashSet<_>>().len() + sigs.iter().collect::<HashSet<_>>().len() + badcas.len() + matrix.iter().collect::<HashSet<_>>().len() + probes.iter().collect::<HashSet<_>>().len() + reloads.iter().collect::<HashSet<_>>().len() + names.iter().collect::<HashSet<_>>().len();
     let n_name_ok = AtomicU64::new(0);
     let n_name_refused = AtomicU64::new(0);
     let n_badca_refused_start = AtomicU64::new(0);
@@ -1797,6 +2527,8 @@ pub fn run(args: &Args) -> Report {
         R(usize),
         N(usize),
         B(usize),
+        /// one returning-client history (library mechanisms)
+        Q(usize),
         /// all signal-reload histories, one after the other (SIGUSR1 is process-wide)
         S,
     }
@@ -1808,6 +2540,7 @@ pub fn run(args: &Args) -> Report {
     jobs.extend((0..reloads.len()).map(Job::R));
     jobs.extend((0..names.len()).map(Job::N));
     jobs.extend((0..badcas.len()).map(Job::B));
+    jobs.extend(ret_lib.iter().copied().map(Job::Q));
     let next = AtomicU64::new(0);
 
     std::thread::scope(|s| {
@@ -1883,6 +2616,16 @@ pub fn run(args: &Args) -> Report {
                                 Err(p) => sink.viol("badca.panic".into(), format!("panic with an unusable client CA {c:?}: {p}"), c.to_json()),
                             }
                         }
+                        Job::Q(k) => {
+                            let c = &rets[k];
+                            let res = exec_ret_case(&rt, pki_of(&c.alg), c, &sink, &counters, &ret_stats);
+                            if c.alg == "p256" && c.mechanism == "library.other-paths" && c.client == "harness-tls13" && c.client_cert == "none" && c.ca0 == "none" && c.history == ["again", "B/ca1"] {
+                                samples.lock().unwrap().push(json!({"case": c.to_json(), "observed": res.facts}));
+                            }
+                            if let Some(m) = res.machinery {
+                                ret_machinery.lock().unwrap().get_or_insert(m);
+                            }
+                        }
                         Job::S => {
                             let t = std::time::Instant::now();
                             for (k, c) in sigs.iter().enumerate() {
@@ -1905,6 +2648,22 @@ pub fn run(args: &Args) -> Report {
                                 }
                             }
                             *sig_wall.lock().unwrap() = t.elapsed().as_secs_f64();
+                            // the returning-client histories that raise SIGUSR1 (same constraint: one at a time)
+                            let t = std::time::Instant::now();
+                            if sig_machinery.lock().unwrap().is_none() {
+                                for k in &ret_sig {
+                                    let c = &rets[*k];
+                                    let res = exec_ret_case(&rt, pki_of(&c.alg), c, &sink, &counters, &ret_stats);
+                                    if c.client == "harness-tls13" && c.client_cert == "client-ca" && c.ca0 == "ca1" && c.history == ["B/ca2"] {
+                                        samples.lock().unwrap().push(json!({"case": c.to_json(), "observed": res.facts}));
+                                    }
+                                    if let Some(m) = res.machinery {
+                                        ret_machinery.lock().unwrap().get_or_insert(m);
+                                        break;
+                                    }
+                                }
+                            }
+                            *ret_sig_wall.lock().unwrap() = t.elapsed().as_secs_f64();
                         }
                         Job::R(k) => {
                             let c = &reloads[k];
@@ -1939,6 +2698,26 @@ pub fn run(args: &Args) -> Report {
     rep.bounds.insert("signal_reload_alphabet".into(), json!(SIG_ALPHABET));
     rep.bounds.insert("signal_reload_history_length".into(), json!(if thorough { "1..=4 (all); 1..=2 with client CA and per further key algorithm" } else { "1..=2 (all); 3 (first step bad-key/bad-cert and last step good-A/good-B, plus [good-B, bad-key, good-A])" }));
     rep.bounds.insert("signal_reload_deadlines_ms".into(), json!({"new_identity_visible": SIG_APPLY_DEADLINE.as_millis() as u64, "settle_before_unchanged_look": SIG_SETTLE.as_millis() as u64, "server_start": SIG_START_DEADLINE.as_millis() as u64}));
+    let ld = |a: &AtomicU64| a.load(Ordering::Relaxed);
+    rep.bounds.insert("returning_client_histories".into(), json!(rets.len()));
+    rep.bounds.insert("returning_client_histories_sigusr1".into(), json!(ret_sig.len()));
+    rep.bounds.insert("returning_client_clients".into(), json!(RET_CLIENTS));
+    rep.bounds.insert("returning_client_starts(client_cert,client_ca)".into(), json!(RET_STARTS));
+    rep.bounds.insert("returning_client_steps".into(), json!(RET_STEPS));
+    rep.bounds.insert("returning_client_history_length".into(), json!(if thorough { "library: 1..=3 (first key algorithm), 1..=2 (others), x 3 reload methods; sigusr1: 1..=2 (harness-tls13), 1 (other clients)" } else { "library: 1..=2 x 3 reload methods; sigusr1: 1 (harness-tls13 only)" }));
+    rep.extra.insert("returning_client_histories".into(), json!(ld(&ret_stats.histories)));
+    rep.extra.insert("returning_client_histories_sigusr1".into(), json!(ld(&ret_stats.sig_histories)));
+    rep.extra.insert("returning_client_handshakes".into(), json!(ld(&ret_stats.handshakes)));
+    rep.extra.insert("resumed_handshakes_without_reload".into(), json!(ret_stats.resumed_without_reload.iter().map(ld).sum::<u64>()));
+    rep.extra.insert("resumed_handshakes_without_reload_by_client".into(), json!(RET_CLIENTS.iter().zip(&ret_stats.resumed_without_reload).map(|(c, n)| ((*c).to_string(), json!(ld(n)))).collect::<serde_json::Map<String, Value>>()));
+    rep.extra.insert("resumed_handshakes_across_reload".into(), json!(ld(&ret_stats.resumed_across_reload)));
+    rep.extra.insert("full_handshakes_after_reload".into(), json!(ld(&ret_stats.full_after_reload)));
+    rep.extra.insert("returning_client_expected_accepts".into(), json!(ld(&ret_stats.expected_accepts)));
+    rep.extra.insert("returning_client_expected_rejections".into(), json!(ld(&ret_stats.expected_rejections)));
+    rep.extra.insert("returning_client_observed_rejections".into(), json!(ld(&ret_stats.observed_rejections)));
+    rep.extra.insert("returning_client_control_histories".into(), json!(ld(&ret_stats.controls_run)));
+    rep.extra.insert("returning_client_control_histories_resumed".into(), json!(ld(&ret_stats.controls_resumed)));
+    rep.extra.insert("returning_client_sigusr1_wall_s".into(), json!(*ret_sig_wall.lock().unwrap()));
     rep.extra.insert("signal_reload_histories_run".into(), json!(n_sig_done.load(Ordering::Relaxed)));
     rep.extra.insert("signal_reload_steps_expecting_no_change".into(), json!(n_sig_steps_unchanged.load(Ordering::Relaxed)));
     rep.extra.insert("signal_reload_wall_s".into(), json!(*sig_wall.lock().unwrap()));
@@ -1956,12 +2735,20 @@ pub fn run(args: &Args) -> Report {
     rep.extra.insert("matrix_expected_refusals_by_server".into(), json!(n_exp_cli_refusal.load(Ordering::Relaxed)));
     rep.extra.insert("keygen_s".into(), json!(keygen_s));
     rep.extra.insert("build_profile".into(), json!(if cfg!(debug_assertions) { "checked" } else { "release" }));
-    for s in samples.into_inner().unwrap() {
+    // the report keeps the first six samples: one per kind of case first (the newest pass first), then the rest
+    let mut samples = samples.into_inner().unwrap();
+    rep.extra.insert("returning_client_samples".into(), json!(samples.iter().filter(|s| s["case"]["kind"] == "returning-client").collect::<Vec<_>>()));
+    let mut seen_kinds: HashSet<String> = HashSet::new();
+    let kind_of = |s: &Value| s["case"]["kind"].as_str().unwrap_or("").to_string();
+    samples.sort_by_key(|s| u8::from(kind_of(s) != "returning-client"));
+    let (firsts, rest): (Vec<Value>, Vec<Value>) = samples.into_iter().partition(|s| seen_kinds.insert(kind_of(s)));
+    for s in firsts.into_iter().chain(rest) {
         rep.sample(s);
     }
     rep.assumptions.push("the system trust store does not contain the CAs generated for this run (roots = \"system\" means no --tls-ca)".into());
     rep.assumptions.push("transport is an in-memory duplex pipe (loopback TCP in the client-name and signal-reload passes); TCP-level effects (resets, partial writes) are out of scope of this property".into());
     rep.assumptions.push("signal-reload pass: SIGUSR1 is raised by the process on itself (raise) only after the server accepted a TLS connection, i.e. after its handler task exists; the reload is given 3 s to become visible".into());
+    rep.assumptions.push("returning-client pass: the client is rustls with its in-memory session store (tickets and session ids), one ClientConfig per history; whether a handshake was resumed is what rustls reports (handshake_kind) on either side; a resumption across a reload is not an alarm by itself (reloading the same identity may resume), only its effects are judged".into());
     rep.assumptions.push("the subject client is TLS 1.3 only (ECH grease); TLS 1.2 client authentication is exercised by the harness-owned probing client".into());
     rep.assumptions.push("certificate chains have depth 1 (leaf directly under the CA); name matching is checked for one DNS mismatch in each direction (and IP names in the thorough tier)".into());
     // vacuity guard: the domain must contain configurations of every expected outcome (success,
@@ -1979,6 +2766,22 @@ pub fn run(args: &Args) -> Report {
     }
     if rep.evaluations < (matrix.len() + probes.len() + reloads.len() + names.len()) as u64 {
         rep.machinery_error = Some("not every case was executed".into());
+    }
+    // returning-client pass: every history executed, and the controls show that this set-up resumes at all
+    let control_failures = ret_stats.control_failures.lock().unwrap().clone();
+    if let Some(m) = ret_machinery.into_inner().unwrap() {
+        rep.machinery_error = Some(m);
+    } else if !control_failures.is_empty() {
+        rep.machinery_error = Some(format!(
+            "returning-client: in {} of {} control histories [first visit, second visit without any reload] the second handshake was NOT a resumption (first: {}): sessions are not resumed in this set-up, so the histories with a reload would say nothing",
+            control_failures.len(),
+            ld(&ret_stats.controls_run),
+            control_failures[0]
+        ));
+    } else if rep.violations.is_empty() && (ld(&ret_stats.histories) != rets.len() as u64 || ld(&ret_stats.sig_histories) != ret_sig.len() as u64) && sig_machinery.lock().unwrap().is_none() {
+        rep.machinery_error = Some(format!("returning-client: {} of {} histories were executed ({} of {} through SIGUSR1)", ld(&ret_stats.histories), rets.len(), ld(&ret_stats.sig_histories), ret_sig.len()));
+    } else if rep.violations.is_empty() && ret_stats.resumed_without_reload.iter().any(|n| ld(n) == 0) {
+        rep.machinery_error = Some(format!("returning-client: no resumed handshake without a reload in between was observed for at least one client kind ({:?}): vacuous", rep.extra.get("resumed_handshakes_without_reload_by_client")));
     }
     if let Some(m) = sig_machinery.into_inner().unwrap() {
         rep.machinery_error = Some(m);
